@@ -1346,3 +1346,85 @@ fn check(tier: Tier, seed: u64) -> i32 {
 fn replay(_sub: &str, v: &Value) -> Result<Outcome, String> {
     replay_as::<Scenario>(v, &run)
 }
+
+// ---------------------------------------------------------------- coverage-guided tier
+
+/// Clamp a byte-decoded scenario (engine::bytesde) into exactly the domain of `strategy()` (sub
+/// `table`): 2..=3 hosts with 1..=2 addresses per family and 1..=4 ephemeral ports, 3..=25
+/// operations within `op_strategy`'s ranges (connect targets only Local/Lo/Unknown), wire class
+/// None or holds of 1..=7 entries out of {0,2,3,4} with an optional lost SYN-ACK 0..=5.
+pub fn fuzz_sanitize(sc: &mut Scenario) -> bool {
+    sc.hosts.truncate(3);
+    while sc.hosts.len() < 2 {
+        sc.hosts.push(HostCfg { v4: 0, v6: 0, eph_len: 0 });
+    }
+    for h in sc.hosts.iter_mut() {
+        h.v4 = 1 + h.v4 % 2;
+        h.v6 = 1 + h.v6 % 2;
+        h.eph_len = 1 + h.eph_len % 4;
+    }
+    let bind_addr = |a: &mut AddrSel| {
+        if let AddrSel::Local(i) | AddrSel::Foreign(i) = a {
+            *i %= 2;
+        }
+    };
+    let conn_addr = |a: &mut AddrSel| {
+        *a = match *a {
+            AddrSel::Local(i) | AddrSel::Foreign(i) => AddrSel::Local(i % 2),
+            AddrSel::Any | AddrSel::Lo => AddrSel::Lo,
+            AddrSel::Unknown => AddrSel::Unknown,
+        }
+    };
+    let port_sel = |p: &mut PortSel| {
+        if let PortSel::Fixed(i) = p {
+            *i %= 3;
+        }
+    };
+    sc.ops.truncate(25);
+    while sc.ops.len() < 3 {
+        sc.ops.push(Op::Close { h: 0, s: 0 });
+    }
+    for op in sc.ops.iter_mut() {
+        match op {
+            Op::BindUdp { h, addr, port, .. } | Op::BindTcp { h, addr, port, .. } => {
+                *h %= 3;
+                bind_addr(addr);
+                port_sel(port);
+            }
+            Op::UdpConnect { h, s, ph, addr, p } => {
+                *h %= 3;
+                *s %= 6;
+                *ph %= 3;
+                conn_addr(addr);
+                *p %= 8;
+            }
+            Op::TcpConnect { h, th, addr, p, .. } => {
+                *h %= 3;
+                *th %= 3;
+                conn_addr(addr);
+                *p %= 8;
+            }
+            Op::TcpConnectL { h, l, .. } => {
+                *h %= 3;
+                *l %= 6;
+            }
+            Op::Close { h, s } => {
+                *h %= 3;
+                *s %= 8;
+            }
+        }
+    }
+    if let Some(w) = sc.wire.as_mut() {
+        w.holds.truncate(7);
+        if w.holds.is_empty() {
+            w.holds.push(0);
+        }
+        for h in w.holds.iter_mut() {
+            *h = [0u8, 2, 3, 4][(*h % 4) as usize];
+        }
+        if let Some(n) = w.drop_synack.as_mut() {
+            *n %= 6;
+        }
+    }
+    true
+}
